@@ -16,7 +16,7 @@ if ! cargo build --release --offline >"$ROOT/harness/target/build.log" 2>&1; the
   exit 2
 fi
 case "$TIER:$ID" in
-  thorough:C01|thorough:C02|thorough:C03|thorough:C04|thorough:C05|thorough:C11) ;;
+  thorough:C01|thorough:C02|thorough:C03|thorough:C04|thorough:C05|thorough:C06|thorough:C07|thorough:C08|thorough:C10|thorough:C11|thorough:C12|thorough:C13|thorough:C15|thorough:C16|thorough:C17|thorough:C20) ;;
   *) exec "$ROOT/harness/target/release/check" "$ID" --tier "$TIER" ;;
 esac
 # thorough tier of these properties: proptest stage, then fixed-work libFuzzer campaigns (bin/fuzz_campaign.py)
